@@ -26,7 +26,7 @@ def small_inline(caller, callee, depth):
 
 
 CTOR_LIKE = {'member::Member::new', 'member::Member::down', 'member::Member::alive', 'member::Member::id',
-             'member::Member::incarnation', 'member::Member::state', 'member::Member::into_identity'}
+             'member::Member::incarnation', 'member::Member::state', 'member::Member::into_identity', 'Foca::identity'}
 
 
 def ctor_inline(caller, callee, depth):
